@@ -75,6 +75,9 @@ func catalog(p ScenParams) *WSpec {
 	case "g4": // fan-out P -> {Q, R}
 		w.Procs = []ProcSpec{src, simpleProc("p", kind), simpleProc("q", kind), simpleProc("r", kind)}
 		w.Edges = []Edge{fe("src", "out", "p", "in"), fe("p", "out", "q", "in"), fe("p", "out", "r", "in")}
+	case "g4b": // fan-out to THREE consumers: P -> {Q, R, S}
+		w.Procs = []ProcSpec{src, simpleProc("p", kind), simpleProc("q", kind), simpleProc("r", kind), simpleProc("s", kind)}
+		w.Edges = []Edge{fe("src", "out", "p", "in"), fe("p", "out", "q", "in"), fe("p", "out", "r", "in"), fe("p", "out", "s", "in")}
 	case "g4s": // two processes whose names differ only in characters the sanitizer folds ("Wx", "wx"), fed by the same out-port
 		a := ProcSpec{Name: "Wx", Kind: kind, Ins: []string{"in"}, Outs: []OutSpec{{Name: "out", Pattern: "{i:in}.wa"}}}
 		b := ProcSpec{Name: "wx", Kind: kind, Ins: []string{"in"}, Outs: []OutSpec{{Name: "out", Pattern: "{i:in}.wb"}}}
@@ -409,6 +412,15 @@ func catalog(p ScenParams) *WSpec {
 	case "emptyparam": // a task that cannot be formed: empty parameter value
 		if ps := w.proc("p"); ps != nil {
 			ps.FromStr["a"][len(ps.FromStr["a"])-1] = ""
+		}
+	case "badpath-exists": // ... invalid character in the output path AND a file of exactly that name is already there
+		if ps := w.proc("p"); ps != nil {
+			ps.FromStr["a"][len(ps.FromStr["a"])-1] = "b+c"
+			w.PreFiles = map[string]string{fmt.Sprintf("in%d.txt.b+c.p", p.Items-1): "left by somebody"}
+		}
+		if qs := w.proc("q"); qs != nil {
+			// the dependant's own output name does not inherit the invalid character
+			qs.Outs[0].Pattern = "{i:in|%.b+c.p}.q"
 		}
 	case "badpath", "badpath-nonascii-letter", "badpath-nonascii-digit", "badpath-glob", "badpath-dollar": // ... invalid character in the output path
 		if ps := w.proc("p"); ps != nil {
